@@ -75,8 +75,10 @@ v("c02-round-dropped", {"C02"}, (KFDC, "                round(weights_sol_dict[i
 v("c02-greedy-accept-always", {"C02", "C05", "C13"}, (KFD, "        if len(paths) <= self.k:\n", "        if len(paths) >= 0:\n", 1))
 v("c02-extra-skip", {"C02", "C10"}, (KFD, "            f_u_v = float(data[self.flow_attr])\n\n            # We encode that edge_vars[(u,v,i)] * self.path_weights_vars[(i)] = self.pi_vars[(u,v,i)],\n            # assuming self.w_max is a bound for self.path_weights_vars[(i)]\n            for i in range(self.k):\n                if (u, v, i) in self.edges_set_to_zero:",
                                       "            f_u_v = float(data[self.flow_attr])\n            if f_u_v == 0:\n                continue\n\n            for i in range(self.k):\n                if (u, v, i) in self.edges_set_to_zero:", 1))
-v("c02-wmax-halved", {"C02"}, (KFD, "        self.w_max = self.weight_type(\n            self.G.get_max_flow_value_and_check_non_negative_flow(\n                flow_attr=self.flow_attr, edges_to_ignore=self.edges_to_ignore\n            )\n        )",
-                                "        self.w_max = self.weight_type(\n            self.G.get_max_flow_value_and_check_non_negative_flow(\n                flow_attr=self.flow_attr, edges_to_ignore=self.edges_to_ignore\n            )\n        ) / 2", 1))
+v("c02-wmax-halved", {"C02"}, (KFD, "        self.w_max = math.ceil(max_flow_value) if self.weight_type == int else float(max_flow_value)",
+                                "        self.w_max = (math.ceil(max_flow_value) if self.weight_type == int else float(max_flow_value)) / 2", 1))
+v("c02-wmax-truncated-again", {"C02"}, (KFD, "        self.w_max = math.ceil(max_flow_value) if self.weight_type == int else float(max_flow_value)",
+                                "        self.w_max = self.weight_type(max_flow_value)", 1))
 # ----------------------------------------------------------------------------------------------- C03 / C04 / C09 / C15 searches
 v("c03-start-after-lowerbound", {"C03", "C13"}, (MFD, "for i in range(self.get_lowerbound_k(), self.G.number_of_edges() + len(self.subpath_constraints) + 1):", "for i in range(self.get_lowerbound_k() + 1, self.G.number_of_edges() + len(self.subpath_constraints) + 2):", 1))
 v("c03-range-off-by-one", {"C03"}, (MFD, "for i in range(self.get_lowerbound_k(), self.G.number_of_edges() + len(self.subpath_constraints) + 1):", "for i in range(self.get_lowerbound_k(), self.G.number_of_edges() + len(self.subpath_constraints)):", 1))
@@ -218,10 +220,13 @@ v("c11-translator-filters-constraint-nodes", {"C11", "C03", "C10"}, (NED, "     
                                                                       "                if self.node_flow_attr in self.original_G.nodes[node]:\n                    expanded_constraint.append((node + '.0', node + '.1'))", 1))
 v("c11-translator-filters-starts", {"C11", "C10"}, (NED, "        return [self.get_expanded_edge(node)[0] for node in additional_starts]", "        return [self.get_expanded_edge(node)[0] for node in additional_starts if self.original_G.in_degree(node) > 0]", 1))
 # (since the record guard `inexact_excess > 1e-9` exists, the stop test alone no longer decides safety: strict is property-preserving, both relaxed is not)
-v("benign-flow-safety-threshold-strict-under-record-guard", B, ("flowpaths/utils/safetyflowdecomp.py", "if inexact_excess + rightdiff <= 1e-9:", "if inexact_excess + rightdiff < 0:", 1))
-v("c06-flow-safety-threshold-strict", {"C06", "C05"}, ("flowpaths/utils/safetyflowdecomp.py", "if inexact_excess + rightdiff <= 1e-9:", "if inexact_excess + rightdiff < 0:", 1),
-  ("flowpaths/utils/safetyflowdecomp.py", "if path_not_suffix_of_previous and inexact_excess > 1e-9:", "if path_not_suffix_of_previous and inexact_excess >= 0:", 1))
-v("benign-flow-safety-threshold-restyled", B, ("flowpaths/utils/safetyflowdecomp.py", "if inexact_excess + rightdiff <= 1e-9:", "if 1e-9 >= rightdiff + inexact_excess:", 1))
+v("benign-flow-safety-threshold-strict-under-record-guard", B, ("flowpaths/utils/safetyflowdecomp.py", "if inexact_excess + rightdiff <= excess_tolerance:", "if inexact_excess + rightdiff < 0:", 1))
+v("c06-flow-safety-threshold-strict", {"C06", "C05"}, ("flowpaths/utils/safetyflowdecomp.py", "if inexact_excess + rightdiff <= excess_tolerance:", "if inexact_excess + rightdiff < 0:", 1),
+  ("flowpaths/utils/safetyflowdecomp.py", "if path_not_suffix_of_previous and inexact_excess > excess_tolerance:", "if path_not_suffix_of_previous and inexact_excess >= 0:", 1))
+v("c06-flow-safety-absolute-tolerance-again", {"C06", "C05"}, ("flowpaths/utils/safetyflowdecomp.py", "if path_not_suffix_of_previous and inexact_excess > excess_tolerance:", "if path_not_suffix_of_previous and inexact_excess > 1e-9:", 1))
+v("c06-flow-safety-assert-exact-floats", {"C06", "C05"}, ("flowpaths/utils/safetyflowdecomp.py", "        return value if isinstance(value, int) else Fraction(value)", "        return value", 2),
+  ("flowpaths/utils/safetyflowdecomp.py", "                assert abs(inexact_excess) <= excess_tolerance\n", "                assert inexact_excess == 0\n", 1))
+v("benign-flow-safety-threshold-restyled", B, ("flowpaths/utils/safetyflowdecomp.py", "if inexact_excess + rightdiff <= excess_tolerance:", "if excess_tolerance >= rightdiff + inexact_excess:", 1))
 # --- C17.R4 reachability DP direction
 SDAG = "flowpaths/stdag.py"
 SDG = "flowpaths/stdigraph.py"
@@ -236,11 +241,11 @@ v("benign-dp-renamed", B, (SDAG, "            for node in self.topological_order
 # --- C19.R4 conservation validator body
 GU = "flowpaths/utils/graphutils.py"
 v("c19-conservation-extra-exemption", {"C19"}, (GU, "        if G.out_degree(v) == 0 or G.in_degree(v) == 0:\n            continue\n\n        out_flow = 0", "        if G.out_degree(v) <= 1 or G.in_degree(v) == 0:\n            continue\n\n        out_flow = 0", 1))
-v("c19-conservation-one-sided", {"C19"}, (GU, "        elif not math.isclose(out_flow, in_flow, rel_tol=1e-9, abs_tol=1e-9):\n            return False", "        elif out_flow > in_flow:\n            return False", 1))
-v("c19-conservation-exact", {"C19"}, (GU, "        elif not math.isclose(out_flow, in_flow, rel_tol=1e-9, abs_tol=1e-9):\n            return False", "        elif out_flow != in_flow:\n            return False", 1))
-v("c19-conservation-loose", {"C19"}, (GU, "        elif not math.isclose(out_flow, in_flow, rel_tol=1e-9, abs_tol=1e-9):\n            return False", "        elif not math.isclose(out_flow, in_flow, rel_tol=1e-9, abs_tol=0.5):\n            return False", 1))
-v("c19-conservation-early-accept", {"C19"}, (GU, "        elif not math.isclose(out_flow, in_flow, rel_tol=1e-9, abs_tol=1e-9):\n            return False\n\n    return True", "        elif not math.isclose(out_flow, in_flow, rel_tol=1e-9, abs_tol=1e-9):\n            return False\n        return True\n\n    return True", 1))
-v("benign-conservation-renamed", B, (GU, "        elif not math.isclose(out_flow, in_flow, rel_tol=1e-9, abs_tol=1e-9):\n            return False", "        elif not math.isclose(in_flow, out_flow, rel_tol=1e-9, abs_tol=1e-9):\n            return False", 1))
+v("c19-conservation-one-sided", {"C19"}, (GU, "        elif not abs(out_flow - in_flow) <= 4 * (G.in_degree(v) + G.out_degree(v)) * math.ulp(max(abs(float(out_flow)), abs(float(in_flow)))):\n            return False", "        elif out_flow > in_flow:\n            return False", 1))
+v("c19-conservation-exact", {"C19"}, (GU, "        elif not abs(out_flow - in_flow) <= 4 * (G.in_degree(v) + G.out_degree(v)) * math.ulp(max(abs(float(out_flow)), abs(float(in_flow)))):\n            return False", "        elif out_flow != in_flow:\n            return False", 1))
+v("c19-conservation-loose", {"C19"}, (GU, "        elif not abs(out_flow - in_flow) <= 4 * (G.in_degree(v) + G.out_degree(v)) * math.ulp(max(abs(float(out_flow)), abs(float(in_flow)))):\n            return False", "        elif not math.isclose(out_flow, in_flow, rel_tol=1e-9, abs_tol=1e-9):\n            return False", 1))
+v("c19-conservation-early-accept", {"C19"}, (GU, "            return False\n\n    return True", "            return False\n        return True\n\n    return True", 1))
+v("benign-conservation-renamed", B, (GU, "        elif not abs(out_flow - in_flow) <= 4 * (G.in_degree(v) + G.out_degree(v)) * math.ulp(max(abs(float(out_flow)), abs(float(in_flow)))):\n            return False", "        elif not abs(in_flow - out_flow) <= 4 * (G.out_degree(v) + G.in_degree(v)) * math.ulp(max(abs(float(in_flow)), abs(float(out_flow)))):\n            return False", 1))
 # --- C17.R5 / C02.R8 peeling
 v("c17-peel-skips-last-edge", {"C17", "C02"}, (SDAG, "            for i in range(len(path) - 1):\n                temp_G[path[i]][path[i + 1]][flow_attr] -= bottleneck", "            for i in range(len(path) - 2):\n                temp_G[path[i]][path[i + 1]][flow_attr] -= bottleneck", 1))
 v("c17-peel-max-instead-of-min", {"C17", "C02"}, (GU, "uBottleneck = min(B[u], G.edges[u, v][flow_attr])", "uBottleneck = max(B[u], G.edges[u, v][flow_attr])", 1))
